@@ -55,6 +55,26 @@ def run(fx, rep):
     rep.rule('R5', 'placeholders are returned only after an error was recorded (or on syntax-error-only edges)')
     rep.rule('R6', 'audited panic edges of the hand-written parser')
     rep.rule('R7', 'an error renders to non-empty text')
+    rep.rule('P1', 'producer rule behind the ledger: find_expander hands each expander exactly the receiver/arity combinations its unreachable!() arms and remove/unwrap calls assume')
+    from .c10 import find_expander_table
+    find_expander_table(fx, rep, 'P1')
+    rep.rule('P2', 'producer rules behind the ledger: add_term appends one term and one operator; a prefix alternative has at least one operator token')
+    ab = [x for x in fx.bodies.values() if F.norm_path(x.path) == 'cel_parser::parser::LogicManager::add_term']
+    if len(ab) != 1:
+        raise F.Lost('LogicManager::add_term not found')
+    apv = F.Prov(ab[0])
+    pushes = sorted('|'.join(sorted(F.term_str(x) for x in apv.of_operand(t['args'][0]))) for bi, t in ab[0].calls() if F.norm_callee(t) == 'std::vec::Vec::push')
+    uncond = all(ab[0].dominates(bi, rb) for bi, t in ab[0].calls() if F.norm_callee(t) == 'std::vec::Vec::push' for rb, _ in ab[0].terms('Return'))
+    rep.check(pushes == ['arg1.ops', 'arg1.terms'] and uncond, 'P2', 'add_term/one-term-one-op', ab[0].loc(), 'terms.push and ops.push on every path',
+              'add_term pushes to %s%s: terms.len() == ops.len() + 1 no longer holds and LogicManager::expr / balanced_tree index out of bounds' % (pushes, '' if uncond else ' (conditionally)'))
+    from .grammar import Grammar
+    gp = Grammar(fx, 'parser')
+    for p in gp.paths('unary', limit=1):
+        toks = [next(iter(x[1])) for x in p if x[0] == 'tok' and len(x[1]) == 1]
+        rules = [x[1] for x in p if x[0] == 'rule']
+        okk = rules == ['member'] and p[-1][0] == 'rule' and len(toks) == len(p) - 1 and len(set(toks)) <= 1
+        rep.check(okk, 'P2', 'unary/%s' % ('+'.join(toks) or 'member'), 'gen/celparser.rs', 'alternative %s' % (toks + rules),
+                  'unary alternative %s is not (op)+ member / member: ctx.ops[0] in visit_LogicalNot / visit_Negate may be out of bounds' % (p,))
     b = fx.body(PARSE)
     rep.analysed(b, calls=sum(1 for _ in b.calls()))
     pv = F.Prov(b)
